@@ -327,6 +327,10 @@ def cases_nd(draw, tier="quick"):
     if draw(st.integers(0, 3)) == 0:
         ax = draw(st.integers(0, d - 1))
         return {"spec": spec, "mode": "select", "axis": ax, "axis_by": draw(st.sampled_from(["index", "name"])), "index": draw(part(ax))}
+    if draw(st.integers(0, 4)) == 0:
+        # a full tuple of integers (negative ones included): returns the cell's edges and content
+        parts = [["int", draw(st.integers(-shape[a], shape[a] - 1))] for a in range(d)]
+        return {"spec": spec, "mode": "index", "index": parts, "as_tuple": True}
     k = draw(st.integers(1, d + (1 if draw(st.integers(0, 6)) == 0 else 0)))
     parts = [draw(part(min(a, d - 1))) for a in range(k)]
     return {"spec": spec, "mode": "index", "index": parts, "as_tuple": draw(st.booleans())}
